@@ -38,6 +38,8 @@ type c11Thread struct {
 	Fresh bool `json:",omitempty"`
 	// ValOnly: compare error and value only (the process text lists a map-ordered value)
 	ValOnly bool `json:",omitempty"`
+	// ParseLimit: Config.ParseExprLimit of this VM (0 = default)
+	ParseLimit uint64 `json:",omitempty"`
 	// SeqOnly: too many instruction boundaries for schedule enumeration (a loop over a list): sequential replay and race pass only
 	SeqOnly bool `json:",omitempty"`
 }
@@ -77,6 +79,10 @@ var c11Pool = []c11Thread{
 	{Src: "x = dir([]); i = 0; n = 0; while i < x.len() { y = x[i]; if y == 'hacked' { n = n + 1 }; i = i + 1 }; [n, x.len()]", ValOnly: true, SeqOnly: true}, {Src: "x = dir({}); i = 0; n = 0; while i < x.len() { y = x[i]; if y == 'hacked' { n = n + 1 }; i = i + 1 }; [n, x.len()]", ValOnly: true, SeqOnly: true},
 	{Src: "x = dir([]); x[0] = 'hacked'; x[1] = 'hacked'; x.len()", ValOnly: true}, {Src: "x = dir({}); x.pop(); x.push('hacked'); x[0] = 'hacked'; x.len()", ValOnly: true}, {Src: "x = dir(&c); x[0] = 'hacked'; 1", ValOnly: true},
 	{Src: "x = [1,2].kh; y = [3].kh; [x(), y()]"},
+	// a VM that runs into its own parse budget, next to VMs that parse the same kind of text within theirs
+	{Src: "1+2+3+4+5+6+7+8+9+(1+2+3+4+5+6+7+8+9)+[1,2,3,4,5,6,7,8,9].sum()", ParseLimit: 300}, {Src: "1+2+3+4+5+6+7+8+9+(1+2+3+4+5+6+7+8+9)+[1,2,3,4,5,6,7,8,9].sum()"}, {Src: "1+2+3+4+5+6+7+8+9+(1+2"},
+	// computed values without attributes that read / write a name nobody has defined (each VM has its own scopes)
+	{Src: "&rd = tq9 ?? 0; rd + rd"}, {Src: "&wr = (tq9 = 5) + 1; wr + wr"}, {Src: "&rd2 = tq8; func g(){ rd2 }; g()"}, {Src: "func w(){ &k = (tq8 = 7); k }; w()"},
 }
 
 func c11Enumerate(tier string, seed int64, emit func(string, any)) {
@@ -86,8 +92,14 @@ func c11Enumerate(tier string, seed int64, emit func(string, any)) {
 	// VM each, the whole pool three times over (in order, in order again, in reverse): a program gives the same answer every
 	// time, whatever ran in the process before
 	emit("sched/sequential replay of the pool", c11Case{Kind: "golden"})
+	// the pool's core (the first 41 programs) is paired completely; the special-purpose programs after it are paired with each
+	// other and with the first 8 core programs (both orders)
+	const core = 41
 	for i := 0; i < n; i++ {
 		for j := 0; j < n; j++ {
+			if (i >= core) != (j >= core) && i >= 8 && j >= 8 {
+				continue
+			}
 			reps := 4
 			if thorough {
 				reps = 8
@@ -155,6 +167,7 @@ func c11NewVM(t c11Thread) *ds.Context {
 	cfg.NoBitwise, cfg.Fate, cfg.CoC, cfg.WoD, cfg.DC = t.Off&1 != 0, t.Off&2 == 0, t.Off&4 == 0, t.Off&8 == 0, t.Off&16 == 0
 	cfg.NoStmts, cfg.NoNDice, cfg.Max = t.Off&32 != 0, t.Off&64 != 0, t.Max
 	cfg.OpLimit = 20000
+	cfg.ParseLimit = t.ParseLimit
 	vm := drv.NewVM(cfg)
 	vm.Config.CallbackSt = func(_type string, name string, val *ds.VMValue, extra *ds.VMValue, op string, detail string) {}
 	return vm
